@@ -101,6 +101,7 @@ pub struct Inner {
     pub dbg_last_idle: (u64, usize),
     /// add_gen the latest timer that was due at once (deadline <= now when added) will have
     pub due_at_once: u64,
+    pub timer_tid: usize,
     /// workers chosen by `place` for a coroutine that has not been resumed there yet (vid 0 = the note is still to come)
     pub placed: Vec<(usize, usize)>,
     pub add_gen: u64,
@@ -184,6 +185,7 @@ impl Ctrl {
                 timer_host_vid: None,
                 dbg_last_idle: (0, 0),
                 due_at_once: 0,
+                timer_tid: 0,
                 placed: vec![],
                 add_gen: 0,
                 read_add_gen: 0,
@@ -329,6 +331,23 @@ impl Ctrl {
 
     // ---- driver side -------------------------------------------------------------------
 
+    /// the timer thread cannot look at the clock now: it is stopped at one of its own points, or it runs a
+    /// coroutine it has resumed (or the kernel side of that coroutine's next yield) which is stopped at a point
+    fn timer_held(x: &Inner) -> bool {
+        if x.actors.iter().any(|a| a.st == ASt::AtPoint && a.at.as_ref().map_or(false, |p| p.site.starts_with("timer."))) {
+            return true;
+        }
+        if x.timer_host_vid.map_or(false, |v| x.by_vid.get(&v).map_or(false, |i| matches!(x.actors[*i].st, ASt::AtPoint | ASt::Finished(_)))) {
+            return true;
+        }
+        if let Some((k, _)) = x.kthread.get(&x.timer_tid) {
+            if x.actors[*k].st == ASt::AtPoint {
+                return true;
+            }
+        }
+        false
+    }
+
     fn settled_one(g: &Inner, i: usize) -> bool {
         let a = &g.actors[i];
         if a.hosting.is_some() {
@@ -369,9 +388,7 @@ impl Ctrl {
             // looked at yet: it may fire without the clock moving
             if all && g.vclock.is_some() {
                 let seen = g.done_add_gen >= g.add_gen || (g.timer_parked && g.park_add_gen == g.add_gen);
-                let tm_stopped = g.actors.iter().any(|a| a.st == ASt::AtPoint && a.at.as_ref().map_or(false, |p| p.site.starts_with("timer.")));
-                let hostage = g.timer_host_vid.map_or(false, |v| g.by_vid.get(&v).map_or(false, |i| matches!(g.actors[*i].st, ASt::AtPoint | ASt::Finished(_))));
-                if !seen && g.due_at_once > g.done_add_gen && !tm_stopped && !hostage && start.elapsed() < Duration::from_millis(200) {
+                if !seen && g.due_at_once > g.done_add_gen && !Self::timer_held(&g) && start.elapsed() < Duration::from_millis(200) {
                     all = false;
                 }
             }
@@ -516,8 +533,8 @@ impl Ctrl {
             .wait_timeout_while(g, Duration::from_millis(max_ms), |x| {
                 let parked_quiet = x.timer_parked && x.park_add_gen == x.add_gen;
                 let polled_quiet = x.timer_done_gen >= x.tick_gen && x.done_add_gen >= x.add_gen;
-                // the timer thread may also be stopped at one of its own points (it is an actor then)
-                let at_point = x.actors.iter().any(|a| a.st == ASt::AtPoint && a.at.as_ref().map_or(false, |p| p.site.starts_with("timer.")));
+                // the timer thread may also be stopped at one of its own points (it is an actor then) or held up
+                let at_point = Self::timer_held(x);
                 !parked_quiet && !polled_quiet && !at_point && x.fired == fired_before
             })
             .unwrap_or_else(|p| p.into_inner());
@@ -534,11 +551,7 @@ impl Ctrl {
             .wait_timeout_while(g, Duration::from_millis(max_ms), |x| {
                 let parked_quiet = x.timer_parked && x.park_add_gen == x.add_gen;
                 let polled_quiet = x.timer_done_gen >= x.tick_gen && x.done_add_gen >= x.add_gen;
-                let at_point = x.actors.iter().any(|a| a.st == ASt::AtPoint && a.at.as_ref().map_or(false, |p| p.site.starts_with("timer.")));
-                let hosted_stopped = x.timer_host_vid.map_or(false, |v| {
-                    x.by_vid.get(&v).map_or(false, |i| matches!(x.actors[*i].st, ASt::AtPoint | ASt::Finished(_)))
-                });
-                !parked_quiet && !polled_quiet && !at_point && !hosted_stopped
+                !parked_quiet && !polled_quiet && !Self::timer_held(x)
             })
             .unwrap_or_else(|p| p.into_inner());
     }
@@ -739,6 +752,7 @@ impl may::verif::Controller for Ctrl {
             }
             "timer.thread" => {
                 IS_TIMER.with(|c| c.set(true));
+                g.timer_tid = my_tid();
             }
             "timer.added" => {
                 g.add_gen += 1;
